@@ -5,6 +5,6 @@ CONSTANTS
   S2 = {"abs", "null", "val"}
   Z = {"abs", "val"}
 SPECIFICATION MCSpec
-INVARIANTS WarnsExact ErrIffMismatch NoneForDefault EmitCases EmitNullCases
+INVARIANTS WarnsExact ErrIffMismatch NoneForDefault EmitCases EmitNullCases EmitCrossCases
 PROPERTY Termination
 CHECK_DEADLOCK FALSE
